@@ -83,4 +83,33 @@ theorem statement_scope_exact (p : Program) (h : Typing.wellTyped p = true) :
     simp only [List.map_append, search_variables_labels, hnames, hp]
     rfl
 
+open Spl.ScopeExact in
+/-- **Names local to another procedure are never proposed.**  In a well-typed program, whatever is proposed at a
+    statement position of procedure `pd` is a statement starter, one of `pd`'s own parameters or local variables, or a
+    (predefined or declared) procedure — a name that is only a parameter or variable of some other procedure is not
+    in the list. -/
+theorem only_own_locals_proposed (p : Program) (h : Typing.wellTyped p = true) :
+    ∃ table, build p = .ok (p, table) ∧
+      ∀ d ∈ p.decls, ∀ pd n, d.val = .proc pd → pd.name = some n →
+        ∃ pe, tblLookup table n.value = some (.procedure pe) ∧
+          ∀ x ∈ (newStmt (some pe.localTable) table).map (·.label),
+            x ∈ ["while".toList, "if".toList] ∨
+            x ∈ pd.params.filterMap paramName ++ pd.vars.filterMap varName ∨
+            x ∈ (["printi", "printc", "readi", "readc", "exit", "time", "clearAll", "setPixel", "drawLine",
+              "drawCircle"].map String.toList ++ p.decls.filterMap declProcName) := by
+  obtain ⟨table, hb, _, hl⟩ := statement_scope_exact p h
+  refine ⟨table, hb, ?_⟩
+  intro d hd pd n hv hn
+  obtain ⟨pe, hlk, heq⟩ := hl d hd pd n hv hn
+  refine ⟨pe, hlk, ?_⟩
+  intro x hx
+  rw [heq] at hx
+  rcases List.mem_append.mp hx with hx | hx
+  · rcases List.mem_append.mp hx with hx | hx
+    · left
+      simp only [List.mem_cons, List.mem_nil_iff, or_false] at hx ⊢
+      rcases hx with rfl | rfl | rfl | rfl <;> simp
+    · exact Or.inr (Or.inl hx)
+  · exact Or.inr (Or.inr hx)
+
 end Spl.C16
